@@ -58,6 +58,7 @@ def run_case(case):
                       # ['ev', name, thread] entries into the library's transition functions / user calls
     res = []
     attempt = [0]
+    fired = {}
     restore = []
     try:
         dev.install(dev.Config(**cfgkw))
@@ -90,6 +91,22 @@ def run_case(case):
                 if name in ('connected', 'fully_connected'):
                     e.append(completeness())
                 log.append(e)
+                # the application acts from inside its callback (case['cb_actions'] = [[callback, 'close'|'open', nth]])
+                for act in case.get('cb_actions', ()):
+                    if act[0] == name and fired.get(name, 0) == (act[2] if len(act) > 2 else 0):
+                        fired[name] = fired.get(name, 0) + 1
+                        try:
+                            if act[1] == 'close':
+                                cf.close_link()
+                            elif act[1] == 'open':
+                                log.append(['ev', 'open', S.name()])
+                                cf.open_link('fake://0')
+                        except Exception as ex:      # noqa
+                            log.append(['ev', 'cb_action_raised:' + type(ex).__name__, S.name()])
+                        break
+                else:
+                    if any(act[0] == name for act in case.get('cb_actions', ())):
+                        fired[name] = fired.get(name, 0) + 1
             return f
         for n in CALLERS:
             getattr(cf, n).add_callback(rec(n))
@@ -192,7 +209,8 @@ def run_case(case):
                                 log.append(['ev', 'mem_write_raised:' + type(e).__name__, S.name()])
                     threading.Thread(target=writer).start()
                 elif name == 'reconnect':
-                    dev.FakeLink.cfg = dev.Config(n_log=cfgkw.get('n_log', 3), n_param=cfgkw.get('n_param', 2))
+                    dev.FakeLink.cfg = dev.Config(n_log=cfgkw.get('n_log', 3), n_param=cfgkw.get('n_param', 2),
+                                                 mems=cfgkw.get('mems', ()))
                     dev.FakeLink.connect_raises = None
                     if case.get('no_driver'):
                         import cflib.crtp
